@@ -334,7 +334,8 @@ fn small_docs() -> Vec<Node> {
     // all ASTs with <= 5 nodes over scalar / seq / map, with one anchor+alias variant each
     let s = Node::plain;
     let mut out = vec![s("a"), Node::seq(false, vec![]), Node::map(false, vec![])];
-    let leafs = [s("a"), s("12"), s("<<")];
+    // (multi-byte scalars: bytes are counted, not characters)
+    let leafs = [s("a"), s("12"), s("<<"), s("gr\u{fc}\u{df}e"), Node::scalar("\u{65e5}\u{672c} \u{2713}", gdoc::Style::Double)];
     for a in &leafs {
         out.push(Node::seq(false, vec![a.clone()]));
         out.push(Node::map(false, vec![(s("k"), a.clone())]));
@@ -347,6 +348,19 @@ fn small_docs() -> Vec<Node> {
             out.push(Node::seq(false, vec![Node::seq(true, vec![a.clone(), b.clone()]).anchored("x"), Node::alias("x")]));
             out.push(Node::map(false, vec![(s("k"), Node::map(true, vec![(s("i"), a.clone())]).anchored("m")), (s("<<"), Node::alias("m")), (s("z"), b.clone())]));
             out.push(Node::seq(false, vec![Node::seq(true, vec![a.clone().anchored("i"), Node::alias("i")]).anchored("o"), Node::alias("o"), Node::alias("i")]));
+        }
+    }
+    // a tagged `<<` is an ordinary key, also when it arrives through an alias; an untagged one
+    // that arrives through an alias is looked at as well
+    for tag in ["!!str", "!x"] {
+        for flow in [false, true] {
+            out.push(Node::seq(false, vec![s("<<").tagged(tag).anchored("m"), Node::map(flow, vec![(Node::alias("m"), s("1")), (s("b"), s("2"))])]));
+            out.push(Node::seq(false, vec![
+                s("<<").tagged(tag).anchored("m"),
+                Node::map(flow, vec![(Node::alias("m"), s("1"))]).anchored("o"),
+                Node::alias("o"),
+                Node::map(flow, vec![(s("<<").tagged(tag), Node::map(true, vec![(s("q"), s("1"))]))]),
+            ]));
         }
     }
     out
